@@ -37,6 +37,9 @@ type Case struct {
 	SrcKind string         `json:"src"` // memory, oci, oci-ro, oci-tar, file
 	DstKind string         `json:"dst"` // memory, oci, file
 	Pre     []int          `json:"pre,omitempty"`
+	// PreTag: the destination reference already resolves to the root (which is then
+	// part of Pre), as after an earlier Copy of it
+	PreTag bool `json:"preTag,omitempty"`
 	Conc    int            `json:"conc"`
 	API     string         `json:"api"` // copygraph, copy, copy-blankdst, copy-maproot, extcopygraph, extcopy
 	MapTo   int            `json:"mapTo,omitempty"`
@@ -286,6 +289,12 @@ func (e *Env) setupDst(ctx context.Context) (*Env, *vt.Fail) {
 				return nil, vt.Failf("harness/dst-prepush", "node %d: %v", id, err)
 			}
 		}
+		if c.PreTag && d.IsManifest(c.Root) {
+			if err := repo.Tag(ctx, d.Nodes[d.Nodes[c.Root].Canon].Desc, DstRef); err != nil {
+				e.Close()
+				return nil, vt.Failf("harness/dst-pretag", "%v", err)
+			}
+		}
 		repo2, _ := newRepo("dst.test", "dst/repo", reg)
 		reg.Lock()
 		for _, h := range c.Holds {
@@ -318,6 +327,12 @@ func (e *Env) setupDst(ctx context.Context) (*Env, *vt.Fail) {
 		if err := gen.PushNode(ctx, rawDst, n); err != nil && !isDup(err) {
 			e.Close()
 			return nil, vt.Failf("harness/dst-prepush", "node %d: %v", id, err)
+		}
+	}
+	if c.PreTag {
+		if err := rawDst.Tag(ctx, d.Nodes[d.Nodes[c.Root].Canon].PushDesc(), DstRef); err != nil {
+			e.Close()
+			return nil, vt.Failf("harness/dst-pretag", "%v", err)
 		}
 	}
 	if c.DstKind == "file" {
